@@ -4,13 +4,14 @@
    Observed at the command boundary of the real RawQuicLayer(force_raw=True) (props/C30.py).  A step of the
    environment starts with one input record; the output records that follow (until the next input record) are the
    commands that step produced, in order.
-     [k |-> "in", conn, sid, kind, d]      QuicStreamDataReceived / QuicStreamReset delivered on (conn, sid);
-                                           kind: "data" | "data_end" | "end" | "reset"; d = payload id (0: none)
+     [k |-> "in", conn, sid, kind, d, code]  QuicStreamDataReceived / QuicStreamReset delivered on (conn, sid);
+                                           kind: "data" | "data_end" | "end" | "reset"; d = payload id (0: none);
+                                           code = error code of a reset (0 otherwise)
      [k |-> "hook_done", f]                the pending hook of flow f is completed (the addon returned)
      [k |-> "conn_closed", conn]           QuicConnectionClosed delivered for conn
      [k |-> "hook", f, name]               output: tcp_start / tcp_message / tcp_end hook of flow f (tcp_end is
                                            answered by the harness immediately, without a hook_done record)
-     [k |-> "out", conn, sid, kind, d]     output: SendQuicStreamData with data ("data"), SendQuicStreamData
+     [k |-> "out", conn, sid, kind, d, code] output: SendQuicStreamData with data ("data"), SendQuicStreamData
                                            (end_stream) ("end"), ResetQuicStream ("reset"), StopSendingQuicStream ("stop")
      [k |-> "close_conn", conn]            output: CloseQuicConnection(conn)      (not judged)
      [k |-> "end"]                         end of the behaviour; no hook is pending
@@ -33,6 +34,8 @@ MonInit == [bad |-> <<>>, wit |-> {},
             alloc |-> {},        \* <<conn, sid>> allocated by mitmproxy
             cause |-> <<>>,      \* <<conn, sid>> | ANY | <<>>
             ckind |-> "",        \* kind of the stream input that started the current step ("": not a stream input)
+            ccode |-> 0,         \* its error code (reset)
+            rst   |-> {},        \* <<conn, sid>>: a reset arrived on this stream (before any FIN) and was not relayed yet
             flows |-> {},        \* <<f, conn, sid>>: stream that created flow f
             pend  |-> {},        \* flows with a pending hook
             din   |-> <<>>,      \* <<d, conn, sid>> in input order
@@ -60,6 +63,10 @@ OutClause(m, ev) ==
   IF x = <<>> THEN <<"C30.output_without_cause", ev.kind>>
   \* mitmproxy never resets a stream on its own: a reset is the relayed reset of this step and goes to the other side
   ELSE IF ev.kind = "reset" /\ (m.ckind # "reset" \/ ev.conn = x[1]) THEN <<"C30.reset_misrouted">>
+  ELSE IF ev.kind = "reset" /\ ev.code # m.ccode THEN <<"C30.reset_code_changed">>
+  \* the reset of a stream must reach the paired stream as a reset, not as a clean end of stream
+  ELSE IF ev.kind = "end" /\ \E r \in m.rst : r[1] # ev.conn /\ ev.sid \in PairOf(m2, r[1], r[2])
+       THEN <<"C30.reset_relayed_as_fin", IF m.ckind = "reset" THEN "same_step" ELSE "later_step">>
   ELSE IF x = ANY THEN (IF tgt \notin m.known THEN <<"C30.signal_to_unknown_stream", ev.kind>> ELSE <<>>)
   ELSE IF ev.conn = x[1] THEN
        (IF ev.sid # x[2] THEN <<"C30.signal_to_unrelated_stream", ev.kind>> ELSE <<>>)
@@ -103,7 +110,9 @@ Clause(m, ev) ==
 MonStep(m, ev) ==
   LET m1 == [m EXCEPT !.bad = Clause(m, ev)] IN
   CASE ev.k = "in" ->
-         [m1 EXCEPT !.cause = <<ev.conn, ev.sid>>, !.ckind = ev.kind,
+         [m1 EXCEPT !.cause = <<ev.conn, ev.sid>>, !.ckind = ev.kind, !.ccode = ev.code,
+                    !.rst = IF ev.kind = "reset" /\ <<ev.conn, ev.sid>> \notin m.touched
+                            THEN @ \cup {<<ev.conn, ev.sid>>} ELSE @,
                     !.known = @ \cup {<<ev.conn, ev.sid>>},
                     !.din = IF ev.d # 0 THEN Append(@, <<ev.d, ev.conn, ev.sid>>) ELSE @,
                     !.touched = IF ev.kind \in {"end", "data_end", "reset"} THEN @ \cup {<<ev.conn, ev.sid>>} ELSE @,
@@ -123,6 +132,8 @@ MonStep(m, ev) ==
                     !.known = @ \cup {<<ev.conn, ev.sid>>},
                     !.alloc = IF Allocates(m, ev) THEN @ \cup {<<ev.conn, ev.sid>>} ELSE @,
                     !.dout = IF ev.kind = "data" THEN @ \cup {ev.d} ELSE @,
+                    !.rst = IF ev.kind = "reset" /\ m.cause # <<>> /\ m.cause # ANY
+                            THEN @ \ {<<m.cause[1], m.cause[2]>>} ELSE @,
                     !.wit = @ \cup (IF Allocates(m, ev)
                                     THEN {IF ev.conn = "server" THEN "alloc_on_server" ELSE "alloc_on_client"}
                                          \cup (IF Uni(ev.sid) THEN {"alloc_uni"} ELSE {"alloc_bidi"})
